@@ -59,6 +59,7 @@ static void judge(Solver& s, long ret, const MatL& A, int nev, int rule, double 
     {
         Fnv f; f.str(key);
         L.distinct.insert(f.h);
+        L.sample("{\"history\": " + jstr(key) + ", \"info\": \"Successful\"}", 4);
     }
     if (ret != nev) viol("count", "Successful but compute() returned " + num(ret) + " != nev=" + num(nev));
     if (ev.size() != nev || X.cols() != nev || X.rows() != n) { viol("shape", "eigenvalues()/eigenvectors() have the wrong size"); return; }
